@@ -36,6 +36,7 @@ type Config struct {
 	NoMerge      bool
 	NoSummConc   bool
 	GoDeferred   bool // goroutines run at the next WaitGroup.Wait instead of at the spawn point
+	PoolReuse    bool // sync.Pool.Get hands back the most recently Put object
 	SMTLogDir    string
 	Timeouts     [4]int
 }
@@ -650,6 +651,7 @@ func (i *interpreter) runPath(entry *ssa.Function, prefix []decision) (res *path
 	i.hashes = nil
 	i.clock = 0
 	i.pendingGo = nil
+	i.pools = nil
 	defer func() {
 		p := recover()
 		if p == nil {
